@@ -33,7 +33,10 @@ def _custom(handled, marker):
 KINDS = ['Table', 'Enum', 'Reference', 'TableGroup', 'Project', 'StickyNote', 'Column']
 
 
-def _build(a, nm, with_tables, sqlr=None, dbmlr=None):
+GAPS = ['', '\n', '\n\n', '\n\n\n']       # empty lines inside a note text
+
+
+def _build(a, nm, with_tables, sqlr=None, dbmlr=None, gap=''):
     from pydbml import Database
     from pydbml.classes import Table, Column, Enum, EnumItem, Reference, TableGroup, Project, StickyNote, Index
     kw = {}
@@ -48,7 +51,7 @@ def _build(a, nm, with_tables, sqlr=None, dbmlr=None):
     if with_tables:
         t1 = Table('a', columns=[Column('id', 'int', pk=True), Column('c_' + nm, en), Column('x', 'int')])
         t2 = Table('a' + nm[:0] + 'b', schema='s', columns=[Column('id', 'int'), Column('y', 'int', note=nm)])
-        t3 = Table('c', columns=[Column('id', 'int'), Column('z', 'int')])
+        t3 = Table('c', columns=[Column('id', 'int'), Column('z', 'int', note='c1' + gap + 'c2')], note='l1' + gap + 'l2')
         t1.add_index(Index([t1.columns[2]], name='i_' + nm))
         for t in (t3, t1, t2):      # c first: the SQL order (tables holding inline FKs first) differs from db.tables
             db.add(t)
@@ -61,17 +64,27 @@ def _build(a, nm, with_tables, sqlr=None, dbmlr=None):
     db.add(Project('p_' + nm, items={'k': nm}))
     db.add(StickyNote('s1', nm))
     db.add(StickyNote('s2', nm))
+    db.add(StickyNote('s4', 'n1' + gap + 'n2'))
     db.add(StickyNote('s3', ''))        # an empty sticky note is still an element of the database
     return db
 
 
-def default_agreement(K=1):
+def default_agreement(K=1, fix=None):
     """default renderers: each element's text appears exactly once in the database text; rendering has no side effects"""
-    args = [('order', IntRange(0, 3)), ('with_tables', 'bool')] + hole_args('n', K, NAME)
+    args = [('order', IntRange(0, 3)), ('with_tables', 'bool'), ('gap', IntRange(0, 3))] + hole_args('n', K, NAME)
+
+    def _edit(db):
+        # an edit of the model after (or without) earlier renderings
+        if db.tables:
+            db.tables[1].name = 'ren'
+            db.tables[1].columns[0].type = 'bigint'
+            db.tables[0].columns[0].name = 'key'
+        db.enums[0].name = 'e_ren'
+        db.project.items['k2'] = 'v2'
 
     def body(a):
         nm = text_of(a, 'n', K)
-        db = _build(a, nm, a['with_tables'])
+        db = _build(a, nm, a['with_tables'], gap=GAPS[a['gap']])
         before = content(db)
         order_before = [t.name for t in db.tables]
         try:
@@ -121,9 +134,21 @@ def default_agreement(K=1):
                 return 'sticky note DBML does not appear exactly once'
         if d.count(db.project.dbml) != 1:
             return 'project DBML does not appear exactly once'
+        # no side effects: after an edit, the renderings are those of an equal database that was never rendered before
+        twin = _build(a, nm, a['with_tables'], gap=GAPS[a['gap']])
+        _edit(db)
+        _edit(twin)
+        try:
+            if db.sql != twin.sql or db.dbml != twin.dbml:
+                return 'renderings evaluated before an edit influence the renderings after it'
+            for o, o2 in zip(list(db.tables) + list(db.refs), list(twin.tables) + list(twin.refs)):
+                if o.sql != o2.sql or o.dbml != o2.dbml:
+                    return 'element renderings evaluated before an edit influence those after it'
+        except Exception as e:
+            return 'rendering after an edit raised ' + type(e).__name__
         return ''
 
-    return Harness(body, args, describe=lambda a: dict(a), bounds={'K': K})
+    return Harness(body, args, describe=lambda a: dict(a), bounds={'K': K}, fixed=fix)
 
 
 def configured(route, mask, K=1):
@@ -205,7 +230,8 @@ def instances(tier):
     quick = tier == 'quick'
     T1 = 280 if quick else 3000
     K = 1 if quick else 2
-    out = [{'name': 'default_agreement', 'factory': 'default_agreement', 'params': {'K': K}, 'timeout': T1, 'native_limit': 60}]
+    out = [{'name': f'default_agreement/order{o}', 'factory': 'default_agreement', 'params': {'K': K, 'fix': {'order': o}}, 'timeout': T1, 'native_limit': 60}
+           for o in range(4)]
     masks = [0, 127, 0b0101010, 0b1010101] if quick else list(range(0, 128, 9)) + [127]
     for route in ('database', 'parser', 'parser_path', 'parser_file'):
         for m in (masks if route in ('database', 'parser') else masks[1:3]):
